@@ -272,6 +272,11 @@ def refmaps(cases, profile="debug"):
             continue
         t = parse_tree(a[3:].split(" "))
         q = (t.ch[-1] if at_end else t.ch[0]) if t.ch else None
+        if at_end and (q is None or q.kind != "Paragraph"):
+            # the appended query was swallowed by an unclosed block at the end of the document (HTML block, fence ..):
+            # the reference map of this document cannot be asked; its inline comparison is counted as out of scope
+            out.setdefault("unknown", set()).add(i)
+            continue
         if q is None or q.kind != "Paragraph" or len(q.ch) != 1 or q.ch[0].kind != "Link":
             continue
         lk = q.ch[0]
@@ -284,6 +289,7 @@ def run_cases(cases, profile="debug", refs_of=None):
     (case index, block, class, detail, driver line)."""
     hl = harness_lines(cases)
     real = vlib.run_lines(vlib.VH[profile], hl, timeout=1800)
+    rm = {}
     if refs_of is None:
         rm = refmaps(cases, profile)
         refs_of = lambda i: rm.get(i, ())
@@ -301,8 +307,11 @@ def run_cases(cases, profile="debug", refs_of=None):
         for (b, p, line) in lines:
             jobs.append((i, b, p, line, final))
     model = vlib.run_lines(vlib.DRIVER, [j[3] for j in jobs], timeout=1800)
+    unknown = rm.get("unknown", set())
     for (i, b, p, line, final), m in zip(jobs, model):
         cls, detail = compare(b, p, m, final)
+        if cls == "mismatch" and i in unknown:
+            cls, detail = "scope", "reference map of this document could not be asked (front matter + unclosed block at the end)"
         results.append((i, b, cls, detail, line))
     return results
 
